@@ -40,3 +40,6 @@ Store/Spec.vos Store/Spec.vok Store/Spec.required_vos: Store/Spec.v LP/User.vos
 Store/SpecInv.vo Store/SpecInv.glob Store/SpecInv.v.beautified Store/SpecInv.required_vo: Store/SpecInv.v Store/Spec.vo
 Store/SpecInv.vio: Store/SpecInv.v Store/Spec.vio
 Store/SpecInv.vos Store/SpecInv.vok Store/SpecInv.required_vos: Store/SpecInv.v Store/Spec.vos
+Store/SpecValid.vo Store/SpecValid.glob Store/SpecValid.v.beautified Store/SpecValid.required_vo: Store/SpecValid.v Store/Spec.vo Store/SpecInv.vo
+Store/SpecValid.vio: Store/SpecValid.v Store/Spec.vio Store/SpecInv.vio
+Store/SpecValid.vos Store/SpecValid.vok Store/SpecValid.required_vos: Store/SpecValid.v Store/Spec.vos Store/SpecInv.vos
